@@ -16,8 +16,13 @@ verus! {
 //       shim), `f == dep` -> `*f == *dep` (T9), `.cloned( .sort( .join( .to_vec(` -> wrappers (T5), for-`continue` (T11)
 //   anchors: `position:last` / negative ordinals (`@after cycle_path -4`) count from the END of the body, so that the
 //       contract text stays attached to the live cycle block when the dead one is removed or a call argument changes
-//   NOT claimed: completeness, and "which cycles are reported does not vary between runs" — it does vary (the DFS roots
-//       come in the hash order of a std HashMap, RandomState per process): see canary_C16_every_cycle_reported
+//   WEAK COMPLETENESS (prelude/cycles_complete.rs, all proved): `r@.len() == 0 ==> acyclic(self.defs())` — when the
+//       first-definition name graph has a closed chain, at least one cycle is reported.  Ingredients: loop 1 builds the
+//       WHOLE graph (graph_full + graph_dom_full, the converse of graph_ok; completeness of `.filter(..)` by the proved
+//       lemma_filter_complete of prelude/scanimp_iter.rs); a detection always leaves a report (keys_conv + tables_dom +
+//       dfs2_inv: the recursion set holds only names with an adjacency entry); while nothing is reported the ghost
+//       finishing order is a reverse topological order (stack_inv, topo_inv); every key is a root (lemma_roots_cover).
+//   NOT claimed: full completeness (every closed chain is reported) — false of the code: see canary_C16_every_cycle_reported
 global size_of usize == 8;  // A6: 64-bit target
 pub mod pre {
 use super::*;
@@ -312,7 +317,7 @@ impl FixtureDatabase {
         assert(is_closed_chain(defs, cpv));
         assert(strs_v(cycle_path@.subrange(0, cycle_path@.len() - 1)) =~= cpv.drop_last());
     }
-@after cycle_key_str -3
+@after cycle_key -1
     proof {
         assert(cycle_key_str@ == cyc_key(cpv));
         // a key seen before is the key of a cycle reported before
@@ -423,7 +428,65 @@ pub proof fn lemma_F16b_override_is_self_loop_of_G(defs: Map<Seq<char>, Seq<DefV
     assert(edge(defs, n, n));
 }
 
+/// C16 (weak completeness): when the first-definition name graph G has a closed dependency chain — at least two
+/// entries, first == last, every consecutive pair (a, b): b is a parameter of the first registered definition of a and b
+/// is a known fixture name — then compute_fixture_cycles reports AT LEAST ONE cycle, and what it reports first is a real
+/// closed chain of G.  (Not: that very chain; not: every chain — canary_C16_every_cycle_reported.)  The hypotheses on
+/// `cs` are the L1 postconditions of compute_fixture_cycles (cycles_ok; `r@.len() == 0 ==> acyclic(self.defs())`).
+//@tags C16
+pub proof fn lemma_C16_some_cycle_reported_when_one_exists(defs: Map<Seq<char>, Seq<DefV>>, cs: Seq<FixtureCycle>, p: Seq<Seq<char>>)
+    requires cycles_ok(defs, cs), cs.len() == 0 ==> acyclic(defs),
+        p.len() >= 2, p[0] == p[p.len() - 1],
+        forall|i: int| 0 <= i < p.len() - 1 ==> defs.contains_key(#[trigger] p[i]) && defs[p[i]].len() > 0
+            && defs[p[i]][0].dependencies.contains(p[i + 1]) && defs.contains_key(p[i + 1]),
+    ensures cs.len() > 0, is_closed_chain(defs, strs_v(cs[0].cycle_path@)),
+{
+    assert(is_closed_chain(defs, p)) by {
+        reveal(is_chain);
+        assert forall|i: int| 0 <= i && i + 1 < p.len() implies edge(defs, #[trigger] p[i], p[i + 1]) by { }
+    }
+    assert(cs.len() > 0);
+    reveal(cycles_ok);
+    assert(cycle_ok(defs, cyv(&cs[0])));
+}
+/// C16 (weak completeness, contrapositive): an empty report means that no fixture depends on itself, directly or
+/// through other fixtures, in G (self-loops included: the override pattern of F-16b counts when it is registered first).
+//@tags C16
+pub proof fn lemma_C16_empty_report_means_no_dependency_cycle(defs: Map<Seq<char>, Seq<DefV>>, cs: Seq<FixtureCycle>, n: Seq<char>)
+    requires cs.len() == 0 ==> acyclic(defs), cs.len() == 0,
+    ensures !edge(defs, n, n),
+        forall|p: Seq<Seq<char>>| p.len() >= 2 && p[0] == p[p.len() - 1] ==> !#[trigger] is_chain(defs, p),
+{
+    if edge(defs, n, n) {
+        reveal(is_chain);
+        assert(is_closed_chain(defs, seq![n, n]));
+    }
+    assert forall|p: Seq<Seq<char>>| p.len() >= 2 && p[0] == p[p.len() - 1] implies !#[trigger] is_chain(defs, p) by {
+        if is_chain(defs, p) { assert(is_closed_chain(defs, p)); }
+    }
+}
+
 // ---- vacuity guards (must FAIL) -----------------------------------------------------------------------------
+/// the completeness invariants are satisfiable (a two-entry stack, something finished)
+pub proof fn canary_dfs2_inv_unsatisfiable(g: Map<Seq<char>, Seq<Seq<char>>>, sv: Seq<EntV>, rec: Set<Seq<char>>, vis: Set<Seq<char>>, fin: Map<Seq<char>, nat>, cnt: nat)
+    requires dfs2_inv(g, sv, rec, vis), stack_inv(g, sv, vis), topo_inv(g, vis, fin, cnt), sv.len() > 1, sv[0].idx > 0, sv[1].idx > 0, vis.len() > 0,
+    ensures false,
+{
+    reveal(dfs2_inv); reveal(stack_inv); reveal(topo_inv);
+}
+/// acyclicity is not claimed of an arbitrary table
+pub proof fn canary_C16_any_table_acyclic(g: Map<Seq<char>, Seq<Seq<char>>>)
+    ensures g_acyclic(g),
+{
+    reveal(g_chain);
+}
+/// weak completeness needs its hypothesis: without the L1 postcondition nothing follows about the report
+pub proof fn canary_C16_report_nonempty_without_L1(defs: Map<Seq<char>, Seq<DefV>>, cs: Seq<FixtureCycle>, p: Seq<Seq<char>>)
+    requires cycles_ok(defs, cs), is_closed_chain(defs, p),
+    ensures cs.len() > 0,
+{
+    reveal(cycles_ok); reveal(is_chain);
+}
 /// the loop invariant is satisfiable
 pub proof fn canary_dfs_inv_unsatisfiable(defs: Map<Seq<char>, Seq<DefV>>, sv: Seq<EntV>, rec: Set<Seq<char>>, vis: Set<Seq<char>>)
     requires dfs_inv(defs, sv, rec, vis), sv.len() > 0,
